@@ -20,7 +20,8 @@ type kase struct {
 	Stratum string `json:"stratum,omitempty"` // which enumeration stratum produced it
 	Pre     string `json:"pre,omitempty"`     // definitions evaluated before Src (same runtime)
 	Src     string `json:"src"`
-	B64     bool   `json:"b64,omitempty"` // Src is base64 (the text is not valid UTF-8)
+	B64     bool   `json:"b64,omitempty"`       // Src is base64 (the text is not valid UTF-8)
+	Stack   int    `json:"max_stack,omitempty"` // run in a reader-only worker with this goroutine stack ceiling (bytes)
 }
 
 func (k *kase) setSrc(b string) {
@@ -47,6 +48,7 @@ type space struct {
 	Batch int64 // cases per worker batch
 	Heavy bool  // memory-hungry: bounded concurrency, one case per batch
 	Reuse int   // cases that may share one runtime (0 = fresh runtime per case)
+	Stack int   // >0: a reader-only space, run in workers with this goroutine stack ceiling
 	Case  func(i int64) kase
 }
 
@@ -456,6 +458,23 @@ func loadAux(path string) (auxData, error) {
 	return a, err
 }
 
+// readerStackCeiling is the goroutine stack ceiling of the reader-only
+// workers.  Measured on the unchanged tree (TestDevReaderStack, power-of-two
+// ceilings because Go stacks grow by doubling): the deepest parses the reader
+// accepts -- 10000 nested brackets (survive from 4 MiB), 9999 prefixes and the
+// prefix/bracket and prefix/prefix alternations (survive from 8 MiB), in all
+// four readers, the fault-tolerant reader's 50 recovery rounds included --
+// need at most 8 MiB, so 128 MiB leaves a >= 16x margin.  Nothing but reading
+// happens in such a worker.
+const readerStackCeiling = 128 << 20
+
+func readerDepthsFor(thorough bool) []int {
+	if thorough {
+		return []int{10, 100, 10_000, 100_000, 1_000_000, 2_000_000, 4_000_000, 8_000_000}
+	}
+	return []int{10, 100, 10_000, 100_000, 1_000_000}
+}
+
 func depthsFor(thorough bool) []int {
 	if thorough {
 		return []int{10, 100, 1000, 10_000, 100_000, 1_000_000}
@@ -535,6 +554,27 @@ func buildSpace(name string, thorough bool, aux auxData) (*space, error) {
 			k.setSrc(g.prog(d))
 			return k
 		}}, nil
+	case "reader-depth", "reader-depth-load":
+		// every reader nesting construct that does not go through a bracket
+		// (and the bracket ones, for comparison) x depth: read by the four
+		// readers with no limits in a reduced-stack reader-only worker, and
+		// loaded under limits in an ordinary worker
+		ds := readerDepthsFor(thorough)
+		size := int64(len(readerGens) * len(ds))
+		sp := &space{Name: name, Size: size, Batch: 1, Heavy: true, Case: func(i int64) kase {
+			g := readerGens[int(i)/len(ds)]
+			d := ds[int(i)%len(ds)]
+			k := kase{Space: name, Idx: i, Mode: "read4", Limits: "none", Stack: readerStackCeiling, Stratum: fmt.Sprintf("%s/d=%d", g.name, d)}
+			if name == "reader-depth-load" {
+				k.Mode, k.Limits, k.Stack = "load", "fuzz", 0
+			}
+			k.setSrc(g.prog(d))
+			return k
+		}}
+		if name == "reader-depth" {
+			sp.Stack = readerStackCeiling
+		}
+		return sp, nil
 	case "gen-value":
 		ds := depthsFor(thorough)
 		size := int64(len(valueGens) * len(ds))
